@@ -44,6 +44,8 @@ type Link struct {
 	LatPm      int
 	LatMax     time.Duration
 	BytesPerMs int // 0 = unlimited
+	PipeCap    int  // with Serial: bytes that may wait in front of the line before the writer blocks (0: unbounded)
+	Blocked    int  // writes that had to wait for room in the pipe
 	Serial     bool // with BytesPerMs: writes queue up behind each other (a line of that capacity) instead of each being delayed by its own size only
 	Atomic     func(data []byte) bool // chunks for which this holds are never cut (e.g. a trigger line: detectors work per read)
 	SealAtomic bool                   // atomic chunks are also never merged with their neighbours
@@ -125,6 +127,18 @@ func (l *Link) Write(p []byte) (int, error) {
 	w.mu.Unlock()
 	if d := until - w.Now(); d > 0 {
 		Sleep(d)
+	}
+	// a line of limited capacity with a pipe of PipeCap bytes in front of it: the writer blocks while more than
+	// that is waiting to go out
+	w.mu.Lock()
+	var wait time.Duration
+	if l.Serial && l.BytesPerMs > 0 && l.PipeCap > 0 {
+		wait = l.lastAt - w.Now() - time.Duration(l.PipeCap/l.BytesPerMs)*time.Millisecond
+	}
+	w.mu.Unlock()
+	if wait > 0 {
+		l.Blocked++
+		Sleep(wait)
 	}
 	w.mu.Lock()
 	if l.werr != nil {
